@@ -280,7 +280,7 @@ def bash_check(cases, code_results, idxs, specv, ctx):
         sel = [cases[i] for i in idxs]
         res = br.run(sel)
         for i, c, b in zip(idxs, sel, res):
-            if b is None:
+            if b is None or b == ("TIMEOUT",):
                 continue
             cr = code_results[i]
             if cr == b:
@@ -311,6 +311,11 @@ def classify_bash_diff(c, cr, b):
     # bash takes an (unterminated) extglob opener for a pattern even with extglob off: failglob / nullglob fire
     if ("F" in c.opts or "n" in c.opts) and "e" not in c.opts and "f" not in c.opts and re.search(r"[+@!?*]\(", v):
         return "KF-C04-extglob-opener-failglob"
+    # bash's glob_pattern_p: any unquoted [ ... ] counts as a pattern (so failglob / nullglob fire) even when it is
+    # not a well-formed bracket expression for brush ([] , []x , [!] ...)
+    if ("F" in c.opts or "n" in c.opts) and "f" not in c.opts and re.search(r"\[.*\]", v, flags=re.S) \
+            and cr[0] == "OK":
+        return "KF-C04-bracket-heuristic-failglob"
     return None
 
 
